@@ -96,6 +96,8 @@ type NetEnv struct {
 	// DialFail makes the n-th dial (1-based) return an error without opening a connection.
 	DialFail int
 	Dials    int
+	// DialAddrs: network and address of every call of the dial function, in order.
+	DialAddrs []string
 	// ClientTLS is the config used for implicit TLS by the dial function.
 	ImplicitTLS bool
 	Host        string
@@ -119,6 +121,10 @@ type CallRec struct {
 // Dial is the mail.DialContextFunc of the simulation.
 func (e *NetEnv) Dial(ctx context.Context, network, addr string) (net.Conn, error) {
 	e.Dials++
+	e.DialAddrs = append(e.DialAddrs, network+"!"+addr)
+	if err := ctx.Err(); err != nil {
+		return nil, &net.OpError{Op: "dial", Net: network, Err: err}
+	}
 	if e.DialBlocks {
 		// a dial function that negotiates before it returns (a TLS or proxy dialer) against a
 		// peer that never answers: it comes back when its context says so, and only then
@@ -209,6 +215,7 @@ func RunSim(t *testing.T, seed uint64, pol sim.Policy, maxSteps int, horizon tim
 				// a task blocked on a timer of the bubble (a context deadline inside a dial
 				// function) comes back on its own: give it two virtual minutes
 				k.ExternalWait = int64(2 * time.Minute)
+				k.ForeignTimers = DialSeam
 			}
 			body, freeze := setup(k)
 			k.Go("client", body)
